@@ -706,3 +706,85 @@ def rule_quoted_literals_are_tokens(ctx, rep: Report, rid="G12"):
                         f"following arguments are swallowed or the file is rejected", f"{w.src[0]}:{w.src[1]}")
     if n < 2:
         raise AnalysisError(f"{rep.prop}/{rid}: only {n} quote / word pairs found in the grammar (2 expected)")
+
+
+def _faithful_holders(g, root, reach_uids: Set[int]) -> Set[int]:
+    """Which elements hold the ignore expression after `root.ignore(x)`, following pyparsing's own propagation: an
+    element that does not hold it yet stores it and hands it to its sub-expressions; an element that already holds
+    an equal one stops the descent.  originalTextFor makes its wrapper and the wrapped expression share one list: the
+    wrapped expression holds the comment skipper as soon as the wrapper does, and therefore never hands it down."""
+    held: Set[int] = set()
+
+    def prop(n):
+        if n.uid in held or n.uid not in reach_uids:
+            return
+        held.add(n.uid)
+        if n.kind == "OriginalTextFor":
+            for c in n.children:
+                held.add(c.uid)
+            return
+        for c in n.children:
+            prop(c)
+        d = n.attrs.get("delim_node")
+        if isinstance(d, GNode):
+            prop(d)
+    prop(root)
+    return held
+
+
+def rule_comments_skipped_before_every_token(ctx, rep: Report, rid="L5"):
+    """pyparsing skips comments only in front of elements that hold the ignore expression (and, for a repetition that
+    holds it, in front of every iteration).  Every token of the grammar is therefore either a holder itself or stands
+    at the very start of a holder (the first element of each sequence on the way, any alternative, the body of a holding
+    repetition).  A token that can follow another token inside an element tree that never received the skipper reads a
+    comment as text (`int n = 3 /* digits */` -> default `3 /* digits */`) - which elements receive it is computed with
+    pyparsing's own propagation rules, including the list shared between originalTextFor's wrapper and its argument."""
+    g = ctx.grammar
+    root, _ = parse_root(ctx)
+    evs = [e for e in g.events if e.kind == "ignore" and e.node.uid == root.uid]
+    if not evs:
+        raise AnalysisError("no ignore() on the parse root")
+    held: Set[int] = set()
+    for e in evs:
+        held |= _faithful_holders(g, root, e.reach)
+    tokens_bad: Dict[int, GNode] = {}
+    seen: Set[Tuple[int, bool]] = set()
+    n_tok = 0
+
+    def visit(n, covered: bool):
+        nonlocal n_tok
+        if (n.uid, covered) in seen:
+            return
+        seen.add((n.uid, covered))
+        holder = n.uid in held
+        kids = list(n.children)
+        d = n.attrs.get("delim_node")
+        if not kids and n.kind not in ("Comment", "StringEnd", "Forward"):
+            n_tok += 1
+            if not (holder or covered):
+                tokens_bad[n.uid] = n
+            return
+        if n.kind == "And":
+            for i, c in enumerate(kids):
+                # only the first element stands where this sequence starts; a later one is reached after another token
+                visit(c, (True if holder else covered) if i == 0 else False)
+        elif n.kind in ("ZeroOrMore", "OneOrMore"):
+            for c in kids:
+                visit(c, True if holder else False)
+        elif n.kind == "DelimitedList":
+            for c in kids:
+                visit(c, holder or covered)
+            if isinstance(d, GNode):
+                visit(d, False)
+        else:
+            for c in kids:
+                visit(c, holder or covered)
+    visit(root, True)
+    bad = sorted(tokens_bad.values(), key=lambda x: (x.src, x.uid))
+    for t in bad[:12]:
+        rep.add(rid, f"comment skipping:{ctx_label(g, t)}:comments in front of this token are skipped", False,
+                f"the token neither holds the comment skipper nor stands at the start of an element that does: a comment between the preceding "
+                f"token and this one is not skipped - it is taken for text or makes the file unparsable", f"{t.src[0]}:{t.src[1]}")
+    rep.add(rid, "comment skipping:tokens examined", True, f"{n_tok} token positions, {len(held)} elements hold the skipper", "", nontrivial=False)
+    if n_tok < 40:
+        raise AnalysisError(f"{rep.prop}/{rid}: only {n_tok} token positions examined")
